@@ -360,7 +360,10 @@ impl<'a> Ref<'a> {
             return false;
         }
         match (&self.model.stale[(lane / 2) as usize], rec) {
-            (Some(Casc::Update { k, prev, .. }), Rec::OnUpdate { k: k2, prev: p2, .. }) => k == k2 && prev == p2,
+            (Some(Casc::Update { k, prev, .. }), Rec::OnUpdate { k: k2, prev: p2, v, .. }) => {
+                // the stale event is delivered with the entry's current value
+                k == k2 && prev == p2 && self.model.m[(lane / 2) as usize].get(k) == Some(v)
+            }
             (Some(Casc::Remove { k, prev, .. }), Rec::OnRemove { k: k2, prev: p2, .. }) => k == k2 && prev == p2,
             (Some(Casc::Clear { prev, .. }), Rec::OnClear { prev: p2, .. }) => prev == p2,
             _ => false,
@@ -953,12 +956,20 @@ pub fn verify(t: &Tables, trace: &[Rec], sent: &[Cmd], outcome: &Outcome) -> Rep
             // that explain the observed records the longest one is taken (an aborted block is a prefix of
             // anything).
             let doc_model = r.model.clone();
+            // when nothing explains the block, report the variant that agrees with the observed records longest
+            let mut closest: (usize, Vec<Rec>) = (bad.unwrap_or(0), exp.clone());
             let mut best: Option<(Vec<Rec>, Flow, Vec<u16>, Vec<Quirk>, Model, usize)> = None;
             for qs in QuirkSet::all_nonempty() {
                 r.model = start_model.clone();
                 r.quirk_mode = qs;
                 let (e2, f2, s2) = r.block(&trig);
-                if f2 == Flow::Overflow || first_diff(&e2).is_some() {
+                if f2 == Flow::Overflow {
+                    continue;
+                }
+                if let Some(i) = first_diff(&e2) {
+                    if i > closest.0 {
+                        closest = (i, e2);
+                    }
                     continue;
                 }
                 let better = match &best {
@@ -993,7 +1004,11 @@ pub fn verify(t: &Tables, trace: &[Rec], sent: &[Cmd], outcome: &Outcome) -> Rep
                     spawned = s2;
                     bad = None;
                 }
-                None => r.model = doc_model,
+                None => {
+                    r.model = doc_model;
+                    bad = Some(closest.0);
+                    exp = closest.1;
+                }
             }
         }
         if let Some(i) = bad {
